@@ -108,6 +108,27 @@ func runC20(c *core.Ctx) {
 			} else if b.Len() != 0 || b.Length() != 0 {
 				c.Violate("shape["+t.Name+"]|nonzero", base, fmt.Sprintf("zero-length buffer reports %v", mon.ShapeOf(b)), d)
 			}
+			// --- channel views and index arithmetic on the degenerate shape
+			ev("Channel", "channel-view", base, d)
+			if p, msg := core.Guard(func() {
+				for cc := 0; cc < max(g.ch, 1); cc++ {
+					cv := b.Channel(cc)
+					wl, wc := 0, 0
+					if !zeroShape {
+						wc = g.k
+					}
+					if cv.Channels() != 1 || cv.Length() != wl || cv.Capacity() != wc {
+						c.Violate("Channel["+t.Name+"]|nonzero", base, fmt.Sprintf("channel view of a degenerate buffer reports channels/length/capacity %d/%d/%d", cv.Channels(), cv.Length(), cv.Capacity()), d)
+					}
+					_ = cv.BufferIndex(cc, 0)
+				}
+				_ = b.BufferIndex(0, 0)
+				if b.Channels() != g.ch || b.BitDepth() != t.Bits {
+					c.Violate("shape["+t.Name+"]|wrong", base, fmt.Sprintf("degenerate buffer reports %d channels, depth %d", b.Channels(), b.BitDepth()), d)
+				}
+			}); p {
+				c.Violate("Channel["+t.Name+"]|panic", base, "channel view accessors panicked on a degenerate buffer: "+msg, d)
+			}
 			// --- Slice(0,0)
 			ev("Slice", "slice", base, d)
 			if g.ch > 0 || true {
